@@ -95,7 +95,7 @@ def gen_formulate(rng, slot: int, fault_mode: bool) -> dict:
     return op
 
 
-def generate(seed_: int, run: int, reactions: list[str], wild_hash_seeds: bool = False) -> dict:
+def generate(seed_: int, run: int, reactions: list[str], wild_hash_seeds: bool = False, deep: bool = False) -> dict:
     rng = core.run_rng(PROP, seed_, run)
     cfg_pool = list(core.hash_configs(seed_, run))
     if wild_hash_seeds and run % 8 == 5:
@@ -112,6 +112,8 @@ def generate(seed_: int, run: int, reactions: list[str], wild_hash_seeds: bool =
         focus = [focus[0], _twin(focus[0])]  # equal under qrules' equality, different names
     relabelled = [t for t in tags if t.endswith("+r")]
     n_segments = rng.choice([1, 1, 2, 3])
+    if deep and run % 3 == 0:  # thorough tier: every third history is long
+        n_segments = rng.choice([2, 3, 4])
     # swarm knobs: few builder kinds and few selections per run => the same nodes get re-assigned
     dyn = rng.sample(DYN, k=rng.choice([2, 3, 4])) if rng.random() < 0.7 else DYN
     sel_range = rng.choice([1, 2, 3, 64])
@@ -120,12 +122,12 @@ def generate(seed_: int, run: int, reactions: list[str], wild_hash_seeds: bool =
         cfg = rng.choice(cfg_pool)
         ops: list[dict] = []
         slots: dict[int, str] = {}
-        n_builders = rng.choice([1, 2, 2, 3])
+        n_builders = rng.choice([1, 2, 2, 3]) if not (deep and run % 3 == 0) else rng.choice([2, 3, 4])
         for slot in range(n_builders):
             tag = rng.choice(focus)
             slots[slot] = tag
             ops.append({"op": "new", "b": slot, "rx": tag, "copy": rng.random() < 0.4})
-        for _ in range(rng.randrange(3, 13)):
+        for _ in range(rng.randrange(3, 13) if not (deep and run % 3 == 0) else rng.randrange(10, 30)):
             slot = rng.randrange(n_builders)
             r = rng.random()
             if r < 0.04 and relabelled:
@@ -282,7 +284,8 @@ class Context:
 
     def run(self, r: int) -> dict:
         workload = generate(self.seed, r, self.info["reactions"],
-                            wild_hash_seeds=self.options.get("tier") == "thorough")
+                            wild_hash_seeds=self.options.get("tier") == "thorough",
+                            deep=self.options.get("tier") == "thorough")
         out = execute(self.zy, self.refs, r, workload)
         while self.refs.fresh_mismatch:
             mm = self.refs.fresh_mismatch.pop()
